@@ -686,6 +686,28 @@ impl<'de> Visitor<'de> for DepthProbe {
 	fn visit_some<D: Deserializer<'de>>(self, _d: D) -> Result<(), D::Error> { Ok(()) }
 }
 
+/// Frame obligations for harnesses on array/map/union nodes: CBMC keeps every arm of
+/// `match *self.schema_node` reachable for such nodes, including the decimal arm (rust_decimal) and
+/// the string arms (UTF-8 validation loops), which do not finish.  Their entry points are replaced
+/// by assertions that they are NOT entered (discharged, not assumed).
+fn verif_unreachable_read_decimal<'de, R, V>(
+	_state: &mut DeserializerState<R>,
+	_decimal_mode: DecimalMode<'_>,
+	_hint: VisitorHint,
+	_visitor: V,
+) -> Result<V::Value, DeError>
+where
+	R: ReadSlice<'de>,
+	V: Visitor<'de>,
+{
+	assert!(false, "OBL frame.decimal_arm_not_entered_for_non_decimal_node");
+	Err(DeError::new("unreachable"))
+}
+fn verif_unreachable_from_utf8(_v: &[u8]) -> Result<&str, std::str::Utf8Error> {
+	assert!(false, "OBL frame.string_arm_not_entered_for_non_string_node");
+	Ok("")
+}
+
 macro_rules! at_zero {
 	($input:expr, $node:expr, $call:ident ( $($arg:expr),* )) => {{
 		let mut st = state_over($node, $input);
@@ -708,6 +730,8 @@ static DEPTH_MAP: SchemaNode<'static> = SchemaNode::Map(NodeRef::from_static(&N_
 #[kani::proof]
 #[kani::unwind(6)]
 #[kani::stub(alloc::fmt::format, stub_format)]
+#[kani::stub(read_decimal, verif_unreachable_read_decimal)]
+#[kani::stub(core::str::from_utf8, verif_unreachable_from_utf8)]
 fn c04_depth_zero_array_sites() {
 	let buf: [u8; 2] = kani::any();
 	let input = &buf[..];
@@ -727,6 +751,8 @@ fn c04_depth_zero_array_sites() {
 #[kani::proof]
 #[kani::unwind(6)]
 #[kani::stub(alloc::fmt::format, stub_format)]
+#[kani::stub(read_decimal, verif_unreachable_read_decimal)]
+#[kani::stub(core::str::from_utf8, verif_unreachable_from_utf8)]
 fn c04_depth_zero_map_sites() {
 	let buf: [u8; 2] = kani::any();
 	let input = &buf[..];
